@@ -1,2 +1,8 @@
 import CssVerif.Props.C16
-#print axioms CssVerif.C16.placeholder
+#print axioms CssVerif.C16.not_norm
+#print axioms CssVerif.C16.specificity
+#print axioms CssVerif.C16.specificity_any_tables
+#print axioms CssVerif.C16.definition_cases
+#print axioms CssVerif.C16.exSel_wf
+#print axioms CssVerif.C16.exSel_spec
+#print axioms CssVerif.C16.exSel_run
